@@ -35,6 +35,34 @@ PROPS["C07"] = {
     "assumptions": ["sync/atomic operations are sequentially consistent (Go memory model)", "WaitGroup.Wait returns only after every Done"],
 }
 
+PROPS["C03"] = {
+    "title": "Decoder is total: arbitrary input never crashes or hangs the process",
+    "design_ref": "5.3",
+    "level": "proof",
+    "technique": "PARTIAL Lean proof: recover discipline decided over a fact base regenerated from /repo on every run + protocol termination theorems for every N; codec internals searched by structure-aware mutation in child processes",
+    "facts": ["GoSites"],
+    "theorems": T("Kanzi.Properties.C03_facts", "Kanzi.C03.C03_every_panic_site_recovered", "Kanzi.C03.C03_facts_nonvacuous")
+              + T("Kanzi.Properties.C07", "Kanzi.C07.C07_dec_progress", "Kanzi.C07.C07_dec_measure_mono", "Kanzi.C07.C07_dec_measure_init", "Kanzi.C07.C07_dec_cancel_stable"),
+    "streams": [],
+    "level_text": "PARTIAL PROOF. Proved: (1) every `go` statement of the library spawns a function with a deferred recover and the caller-goroutine entry points recover (theorem by `decide` over Generated/GoSites.lean, which is re-extracted from /repo's AST on every run, so a new unrecovered goroutine breaks the proof); (2) the decode hand-off protocol has no deadlock or endless wait for any number of tasks and any failure placement (C07_dec_progress etc.). NOT proved: termination and memory safety inside each codec's Inverse/Read on attacker-controlled data; those are only searched (structure-aware mutations decoded in child processes with a watchdog).",
+    "level_note": "Trusted: Lean kernel; the syntactic fact extractor harness/cmd/kv/facts_ast.go (go/parser; one level of callee resolution; self-tested); the protocol model tied by hook traces (see C07). Codec internals are outside the model.",
+    "assumptions": ["a deferred recover at the top of every spawned function converts every panic of that goroutine into a task error", "codec Inverse/Read loops terminate (searched, not proved)"],
+}
+
+PROPS["C18"] = {
+    "title": "Independent streams do not interfere and internals are race-free",
+    "design_ref": "5.18",
+    "level": "proof",
+    "technique": "PARTIAL Lean proof: no package-level variable is written after init (decided over a fact base regenerated from /repo) + protocol mutual-exclusion theorems; data races observed with the race detector under perturbed schedules",
+    "facts": ["Globals"],
+    "theorems": T("Kanzi.Properties.C18_facts", "Kanzi.C18.C18_globals_readonly", "Kanzi.C18.C18_global_aliases_reviewed", "Kanzi.C18.C18_facts_nonvacuous")
+              + T("Kanzi.Properties.C07", "Kanzi.C07.C07_enc_mutex", "Kanzi.C07.C07_dec_mutex"),
+    "streams": [],
+    "level_text": "PARTIAL PROOF. Proved: (1) every package-level variable of the library is written only by init / its own initialiser, and every place where a reference into a global table escapes is pinned and reviewed (theorems by `decide` over Generated/Globals.lean, re-extracted from /repo's AST on every run); (2) the shared bitstream is accessed by at most one task at a time for every N and every interleaving (C07 mutex theorems). NOT proved: the Go memory model itself and accesses inside codecs (e.g. inverse BWT workers writing disjoint ranges) - observed only, with the race detector under hook-perturbed schedules.",
+    "level_note": "Trusted: Lean kernel; the syntactic extractor (writes through aliases are listed as aliases, not proved absent); race detector for the observed part.",
+    "assumptions": ["reads of immutable package-level tables need no synchronisation", "writes through the reviewed aliases do not occur (reviewed by hand, pinned by C18_global_aliases_reviewed)"],
+}
+
 HOOK_COMMITS = ["a321cbc"]
 
 # properties not (yet) claimed: reason shown in MANIFEST.not_applicable
